@@ -33,7 +33,7 @@ def slcWriteMsg (a : Addr) (tns : Nat) (v : PyVal) : Except Exn Bytes :=
   match writeableValue a v with
   | .error e => .error e
   | .ok (val, sz) =>
-      match packInt .uint (.int tns), addressFields a (sz * a.count) with
+      match packInt .uint (.int tns), writeAddressFields a (sz * a.count) with
       | .ok t, .ok f => .ok ([0x0F, 0x00] ++ t ++ [0xAB] ++ f ++ val)
       | _, _ => .error .data
 
